@@ -18,7 +18,7 @@ def gen_model_replay(m, rng, job):
     return oplist, {}
 
 
-GENERATORS = {'model_replay': gen_model_replay, 'history': gen_history, 'render_family': history.gen_render_family, 'parse_input': history.gen_parse_input,
+GENERATORS = {'model_replay': gen_model_replay, 'history': gen_history, 'render_family': history.gen_render_family, 'roundtrip_family': history.gen_roundtrip_family, 'parse_input': history.gen_parse_input,
               'pgs': funcs.gen_pgs, 'pgs_codes': funcs.gen_pgs_codes, 's2d': funcs.gen_s2d, 'pcs': funcs.gen_pcs, 'pcs_boundary': funcs.gen_pcs_boundary, 'helper': funcs.gen_helper,
               'twins': twins.gen_twins, 'sp_names': spellings.gen_names, 'sp_codes': spellings.gen_codes,
               'sp_colours': spellings.gen_colours, 'sp_mix': spellings.gen_mixtures, 'sp_hist': spellings.gen_spelled_history, 'text_family': textfam.gen_text_family, 'aset': funcs.gen_aset, 'aset_extra': funcs.gen_aset_extra}
